@@ -282,6 +282,52 @@ def max_tuple(s, defs, seen=None):
     return 0
 
 
+def leaf_kinds_needed(s, defs, acc=None, seen=None):
+    """input kinds without which some leaf validator of the spec could never accept"""
+    acc = set() if acc is None else acc
+    seen = set() if seen is None else seen
+    t = s['t']
+    if t == 'typeof' and s['name'] == 'boolean':
+        acc.add('true')
+    elif t == 'const' and isinstance(s['v'], bool):
+        acc.add('true' if s['v'] else 'false')
+    elif t == 'consts':
+        for v in s['vs']:
+            if isinstance(v, bool):
+                acc.add('true' if v else 'false')
+    elif t == 'bigint':
+        acc.add('bigint')
+    elif t == 'date':
+        acc.add('date')
+    elif t == 'typedarray':
+        acc.add('u8array')
+    elif t == 'object':
+        for v in s['props'].values():
+            leaf_kinds_needed(v, defs, acc, seen)
+        for p in s.get('index') or []:
+            leaf_kinds_needed(p['value'], defs, acc, seen)
+    elif t in ('optional', 'array', 'set'):
+        leaf_kinds_needed(s['x'], defs, acc, seen)
+    elif t == 'tuple':
+        for x in s['prefix']:
+            leaf_kinds_needed(x, defs, acc, seen)
+        if s['rest']:
+            leaf_kinds_needed(s['rest'], defs, acc, seen)
+    elif t in ('anyof', 'allof'):
+        for x in s['xs']:
+            leaf_kinds_needed(x, defs, acc, seen)
+    elif t == 'disc':
+        for m in s['mapping'].values():
+            leaf_kinds_needed(m, defs, acc, seen)
+    elif t == 'map':
+        leaf_kinds_needed(s['k'], defs, acc, seen)
+        leaf_kinds_needed(s['v'], defs, acc, seen)
+    elif t == 'ref' and s['name'] not in seen:
+        seen.add(s['name'])
+        leaf_kinds_needed(defs[s['name']], defs, acc, seen)
+    return acc
+
+
 def mid_kinds_for(spec, defs, tier):
     """kinds tried at positions below the root (the root gets the full list): the JSON kinds plus bigint as non-JSON representative"""
     feats = spec_features(spec, defs)
@@ -300,6 +346,11 @@ def mid_kinds_for(spec, defs, tier):
         kinds += ['date']
     if 'typedarray' in feats:
         kinds += ['u8array']
+    if 'array' in feats and tier != 'quick':
+        kinds += ['sparse2']
+    for k in sorted(leaf_kinds_needed(spec, defs)):
+        if k not in kinds:
+            kinds.append(k)
     if tier != 'quick' and 'true' not in kinds:
         kinds += ['true']
     return kinds
@@ -311,6 +362,8 @@ def kinds_for(spec, defs, tier):
     if tier != 'quick':
         L = max(L, 2)
     kinds = ['undefined', 'null', 'true', 'number', 'string', 'bigint', 'date', 'symbol'] + [f'array{i}' for i in range(L + 1)] + ['object']
+    if 'array' in feats or 'tuple-rest' in feats or 'tuple-closed' in feats:
+        kinds += ['sparse2']
     if 'map' in feats or tier != 'quick':
         kinds += ['map1']
     if 'set' in feats or tier != 'quick':
@@ -328,7 +381,8 @@ def make_job(name, spec, defs, prop, tier, module=None, parser=None, hostile=Fal
     extra = [k for k in extra if k not in keys]
     job = {'name': name, 'spec': spec, 'defs': defs, 'props': [prop],
            'options': [{}, {'disallowExtraProperties': True}, {'objectKeyOrder': 'sorted'}] if prop == 'C03' else ([{}, {'disallowExtraProperties': True}] if prop == 'C12' else [{}]),
-           'kinds': kinds_for(spec, defs, tier), 'midKinds': mid_kinds_for(spec, defs, tier), 'leafKinds': LEAF_QUICK if tier == 'quick' else LEAF_THOROUGH, 'maxDepth': 2 if tier == 'quick' else 3,
+           'kinds': kinds_for(spec, defs, tier), 'midKinds': mid_kinds_for(spec, defs, tier),
+           'leafKinds': (LEAF_QUICK + [k for k in sorted(leaf_kinds_needed(spec, defs)) if k not in LEAF_QUICK]) if tier == 'quick' else LEAF_THOROUGH, 'maxDepth': 2 if tier == 'quick' else 3,
            'keyPool': keys + extra, 'extraKeys': extra, 'maxPaths': 250000 if tier == 'quick' else 3000000}
     if module:
         job['module'] = module
